@@ -242,6 +242,12 @@ where
         self.context.metrics()
     }
 
+    /// Verification hook: read-only snapshot of the collector state.
+    #[cfg(gc_arena_verif)]
+    pub fn verif_snapshot(&self) -> crate::context::VerifSnapshot {
+        self.context.verif_snapshot()
+    }
+
     #[inline]
     pub fn collection_phase(&self) -> CollectionPhase {
         match self.context.phase() {
